@@ -1,7 +1,166 @@
-From Coq Require Import ZArith List Bool.
+(* C15 — property theorems only.  Each is closed by [exact lemma]; Print Assumptions beneath.
+   consensus caller ref maxN m reads = the records Molecule.deduplicate_majority(max_N_span = maxN)
+   produces for the reads of a molecule (Model/C15.v; repaired behaviour, see fixes/C15-*.md).
+   caller = base caller of one column; the implementation's is [fun os => fst (call pc os)]. *)
+From Coq Require Import ZArith List Bool QArith.
 Import ListNotations.
-From SCMO Require Import Model.C15 Proofs.C15.
+From SCMO Require Import Lib.PyInt Model.C15 Proofs.C15_a Proofs.C15_b Proofs.C15_c Proofs.C15_d Proofs.C15.
 Open Scope Z_scope.
-Example C15_placeholder : runs [1;2;3;7;8] = [(1,3);(7,8)].
-Proof. exact placeholder. Qed.
-Print Assumptions C15_placeholder.
+
+(* the aligned (M) positions of all records, in order, are exactly the sorted distinct reference
+   positions observed by the molecule's reads (M over covered runs, N over gaps); every CIGAR
+   alternates M/N, starts and ends with M, has positive lengths and no N longer than max_N_span;
+   the molecule is cut into 1 + (number of gaps longer than max_N_span) records *)
+Theorem C15_blocks_exact : forall caller ref maxN m reads recs,
+  consensus caller ref maxN m reads = Some recs ->
+  flat_map rec_positions recs = covered reads /\
+  inc (covered reads) /\
+  (forall p, In p (covered reads) <-> exists o, In o (all_obs reads) /\ o_pos o = p) /\
+  Forall (fun r => okM maxN (c_cigar r)) recs /\
+  length recs = S (n_long maxN (cigar_of_runs (runs (covered reads)))).
+Proof. exact blocks_exact. Qed.
+Print Assumptions C15_blocks_exact.
+
+(* no record at all exactly when no base of the molecule is aligned (outside the property) *)
+Theorem C15_no_coverage : forall caller ref maxN m reads,
+  consensus caller ref maxN m reads = None <-> all_obs reads = [].
+Proof. exact consensus_none. Qed.
+Print Assumptions C15_no_coverage.
+
+(* blocks of find_ranges: expanding them gives back the position list, for every list *)
+Theorem C15_runs_expand : forall l, flat_map rng (runs l) = l.
+Proof. exact runs_expand. Qed.
+Print Assumptions C15_runs_expand.
+
+(* |seq| = sum of the M lengths = number of aligned positions; the base at each position is the
+   call for the observations at that position *)
+Theorem C15_lengths : forall caller ref maxN m reads recs r,
+  consensus caller ref maxN m reads = Some recs -> In r recs ->
+  c_seq r = map (call_at caller (all_obs reads)) (rec_positions r) /\
+  Z.of_nat (length (c_seq r)) = query_len (c_cigar r) /\
+  length (c_seq r) = length (rec_positions r).
+Proof. exact record_seq. Qed.
+Print Assumptions C15_lengths.
+
+(* a record starts at its first aligned position *)
+Theorem C15_start : forall caller ref maxN m reads recs r,
+  consensus caller ref maxN m reads = Some recs -> In r recs ->
+  exists t, rec_positions r = c_start r :: t.
+Proof. exact record_start. Qed.
+Print Assumptions C15_start.
+
+(* the MD tag read column-wise against the record's sequence gives the (upper-cased) reference base
+   of every aligned position *)
+Theorem C15_md : forall caller ref maxN m reads recs r,
+  consensus caller ref maxN m reads = Some recs -> In r recs ->
+  (forall p, is_digit (ref p) = false) ->
+  md_decode (c_md r) (c_seq r) = Some (map (fun p => upper (ref p)) (rec_positions r)).
+Proof. exact record_md. Qed.
+Print Assumptions C15_md.
+
+(* create_MD_tag / reader round trip for any reference stretch and query of equal length *)
+Theorem C15_md_roundtrip : forall ref q,
+  length ref = length q -> Forall (fun c => is_digit c = false) ref ->
+  md_decode (md_tag ref q) q = Some (map upper ref).
+Proof. exact md_roundtrip. Qed.
+Print Assumptions C15_md_roundtrip.
+
+(* D18: the unrepaired reference stretch (reference_start..reference_end, gap included) does not
+   round-trip on gapped coverage; the M-block stretch does *)
+Theorem C15_md_unrepaired_refuted :
+  let ref := fun p => nth (Z.to_nat p) [65;65;65;67;67;67;71;71;71] 78 in
+  let p := mkPartial 0 (Some 9) [65;65;65;71;71;71] [CM 3; CN 3; CM 3] [(0,3);(6,9)] in
+  md_decode (md_old ref p) (pa_seq p) <> Some (map ref (expand (pa_start p) (pa_cigar p))) /\
+  md_decode (md_tag (map ref (block_positions (pa_md p))) (pa_seq p)) (pa_seq p)
+    = Some (map ref (expand (pa_start p) (pa_cigar p))).
+Proof. exact md_old_refuted. Qed.
+Print Assumptions C15_md_unrepaired_refuted.
+
+(* arg-max: for correctness probabilities in [0,1) the called base is the one whose exact likelihood is
+   strictly above all others; when the two best likelihoods are equal the call is N *)
+Theorem C15_call_argmax : forall pc : Z -> Q, (forall q, (0 <= pc q /\ pc q < 1)%Q) ->
+  forall os, let l := likelihoods pc os in
+  (exists p, unique_max l (fst (call pc os)) p) \/ (tied_max l /\ fst (call pc os) = baseN).
+Proof. exact call_argmax. Qed.
+Print Assumptions C15_call_argmax.
+
+(* what the likelihood table of a column holds: one entry per observed base plus N; a base's value is
+   the product of the correctness probabilities of the observations showing it, N's the product of the
+   error probabilities of all non-N observations, each times 4^(number of factors - 1) *)
+Theorem C15_likelihoods : forall pc os,
+  NoDup (map fst (likelihoods pc os)) /\
+  (forall b, In b (map fst (likelihoods pc os)) <-> b = baseN \/ exists q, In (b, q) os) /\
+  (forall b v, In (b, v) (likelihoods pc os) -> b <> baseN -> v = lik (map pc (quals_of b os))) /\
+  (forall v, In (baseN, v) (likelihoods pc os) -> (v == lik (map (om pc) (nonN os)))%Q).
+Proof. exact likelihoods_spec. Qed.
+Print Assumptions C15_likelihoods.
+
+(* the same arg-max law stated over the declarative likelihood L of each key: either the called base
+   is a key whose likelihood is strictly above that of every other key, or the call is N and two
+   different keys share the maximal likelihood *)
+Theorem C15_call_argmax_decl : forall pc : Z -> Q, (forall q, (0 <= pc q /\ pc q < 1)%Q) ->
+  forall os, let b := fst (call pc os) in
+  (is_key os b /\ forall k, is_key os k -> k <> b -> (L pc os k < L pc os b)%Q) \/
+  (b = baseN /\ exists k1 k2, k1 <> k2 /\ is_key os k1 /\ is_key os k2 /\
+                 (L pc os k1 == L pc os k2)%Q /\ forall k, is_key os k -> (L pc os k <= L pc os k1)%Q).
+Proof. exact call_decl. Qed.
+Print Assumptions C15_call_argmax_decl.
+
+(* non-vacuity of the call: agreement, conflict at unequal and at equal quality, one weak observation *)
+Example C15_call_example :
+  let pc := pc_of (map (fun q => if q =? 0 then 0 else 2 ^ 60 - 2 ^ (60 - q)) (zrange 0 42)) in
+  fst (call pc [(65, 30); (65, 20)]) = 65 /\ fst (call pc [(65, 30); (67, 20)]) = 65 /\
+  call pc [(65, 30); (67, 30)] = (78, 0%Q) /\ fst (call pc [(71, 1); (78, 40)]) = 78 /\
+  fst (call pc [(67, 20); (65, 30); (67, 20)]) = 67.
+Proof. vm_compute. repeat split. Qed.
+Print Assumptions C15_call_example.
+
+(* the reported probability is the winner's share of the total likelihood *)
+Theorem C15_call_probability : forall pc : Z -> Q, (forall q, (0 <= pc q /\ pc q < 1)%Q) ->
+  forall os,
+  fst (call pc os) = fst (call_of (likelihoods pc os)) /\
+  (snd (call pc os) == snd (call_of (likelihoods pc os)) / qsum (map snd (likelihoods pc os)))%Q.
+Proof. exact call_is_call_of. Qed.
+Print Assumptions C15_call_probability.
+
+(* ranking law used above: most_common is a descending rearrangement *)
+Theorem C15_most_common : forall l, Permutation.Permutation (most_common l) l /\ desc (most_common l).
+Proof. intro l. exact (conj (most_common_perm l) (most_common_desc l)). Qed.
+Print Assumptions C15_most_common.
+
+(* the records carry the molecule's sample, UMI, site, fragment count (and strand, barcode) *)
+Theorem C15_tags : forall caller ref maxN m reads recs r,
+  consensus caller ref maxN m reads = Some recs -> In r recs ->
+  c_SM r = m_sample m /\ c_RX r = m_umi m /\ c_DS r = m_site m /\
+  c_TF r = m_fragments m + m_overflow m /\
+  c_reverse r = match m_strand m with Some b => b | None => false end /\
+  (forall u, m_umi m = Some u -> c_BC r = Some (m_bc m) /\ c_MI r = Some (m_bc m ++ u)).
+Proof. exact record_tags. Qed.
+Print Assumptions C15_tags.
+
+(* tie of the executable model to the theorems: the model run by the correspondence check calls
+   bases with call_fast (no division by the total); for a table of probabilities in [0,1) that is
+   the same consensus as with phredscores_to_base_call's [call] *)
+Theorem C15_run_model_is_call : forall tab ref maxN m reads, valid_tab tab = true ->
+  consensus (fun os => fst (call_fast (pc_of tab) os)) ref maxN m reads =
+  consensus (fun os => fst (call (pc_of tab) os)) ref maxN m reads.
+Proof. exact run_model_is_call. Qed.
+Print Assumptions C15_run_model_is_call.
+
+(* non-vacuity: a read with a deletion (gap of 1, kept as 1N), a mate 4 positions further (gap of 4,
+   above max_N_span = 3: second record), conflicting bases at equal quality (tie -> N, position 2)
+   and at unequal quality (position 3: T at 30 beats A at 20) *)
+Example C15_example :
+  let tab := map (fun q => if q =? 0 then 0 else 2 ^ 60 - 2 ^ (60 - q)) (zrange 0 42) in
+  let ref := fun p => nth (Z.to_nat p) [65;67;71;84;65;67;71;84;65;67;71;84;65;67;71;84;65;67;71;84] 78 in
+  let m := mkMeta [83] (Some [85]) (Some 1) [66] 2 0 (Some false) [60; 42] in
+  let reads := [ mkRead 1 [(0,3);(2,1);(0,2)] [67;71;84;71;84] [30;30;30;30;30];
+                 mkRead 11 [(0,3)] [84;65;67] [30;30;30];
+                 mkRead 1 [(0,3)] [67;65;65] [30;30;20] ] in
+  valid_tab tab = true /\
+  option_map (map (fun r => (c_start r, c_cigar r, c_seq r, c_md r)))
+             (consensus (fun os => fst (call (pc_of tab) os)) ref (Some 3) m reads)
+  = Some [ (1, [CM 3; CN 1; CM 2], [67;78;84;71;84], [49;71;49;67;71]);
+           (11, [CM 3], [84;65;67], [51]) ].
+Proof. vm_compute. split; reflexivity. Qed.
+Print Assumptions C15_example.
